@@ -53,7 +53,7 @@ class NonSeekable(io.RawIOBase):
 
 
 # ------------------------------------------------------------------ prolog generator
-KW_LAYOUTS = ["lines", "oneline", "indented", "crlf", "tabs", "peref", "comment-between", "spaces"]
+KW_LAYOUTS = ["lines", "oneline", "indented", "crlf", "tabs", "peref", "comment-between", "spaces", "comment-tag-between", "pi-tag-between"]
 
 
 def gen_prolog(rng, secret_path=None):
@@ -70,6 +70,10 @@ def gen_prolog(rng, secret_path=None):
         marker = "M%dX" % i
         if kind == "literal":
             decl = '<!ENTITY %s "%s text">' % (name, marker)
+            if rng.random() < 0.15:
+                # markup inside a replacement text (legal): '<b' before the document's first element
+                decl = '<!ENTITY %s "%s <b>text</b>">' % (name, marker)
+                kind = "markup-literal"
         elif kind == "charref":
             decl = '<!ENTITY %s "&#%s;">' % (name, rng.choice(["179", "x41", "60", "38"]))
         elif kind == "nested":
@@ -112,7 +116,7 @@ def gen_prolog(rng, secret_path=None):
             if m_:
                 values[name] = m_.group(1)
     layout = rng.choice(KW_LAYOUTS)
-    sep = {"lines": "\n", "oneline": "", "indented": "\n   ", "crlf": "\r\n", "tabs": "\t", "peref": "%p0;", "comment-between": "<!-- c -->", "spaces": "  "}[layout]
+    sep = {"lines": "\n", "oneline": "", "indented": "\n   ", "crlf": "\r\n", "tabs": "\t", "peref": "%p0;", "comment-between": "<!-- c -->", "spaces": "  ", "comment-tag-between": "<!-- <b>bold</b> <i -->", "pi-tag-between": "<?note <p x?>"}[layout]
     if layout == "peref":
         ents.insert(0, '<!ENTITY % p0 "">')
     subset = sep + sep.join(ents) + (sep if layout != "peref" else "")
@@ -124,12 +128,14 @@ def gen_prolog(rng, secret_path=None):
         # entity references parked inside the (never fetched, never parsed) system literal
         doctype = "<!DOCTYPE %s SYSTEM '%s' [%s]>" % (root, "".join("&%s;" % nm for nm in names) * rng.randint(1, 4), subset)
     elif dt_kind == "system+internal":
-        doctype = '<!DOCTYPE %s SYSTEM "http://127.0.0.1:9/x.dtd" [%s]>' % (root, subset)
+        doctype = '<!DOCTYPE %s SYSTEM "%s" [%s]>' % (root, rng.choice(["http://127.0.0.1:9/x.dtd", "http://127.0.0.1:9/<b>/x.dtd", "x<y"]), subset)
     elif dt_kind == "public-netscape":
         doctype = '<!DOCTYPE rss PUBLIC "-//Netscape Communications//DTD RSS 0.91//EN" "http://127.0.0.1:9/rss-0.91.dtd" [%s]>' % subset
     else:
         doctype = "<!DOCTYPE %s>" % root
-    before = rng.choice(["", "", "<!-- comment -->", "<?pi x?>", "<!-- <!DOCTYPE fake> -->", "\n\n", "<!-- %s -->" % ("x" * (70000 if rng.random() < 0.15 else 10))])
+    before = rng.choice(["", "", "<!-- comment -->", "<?pi x?>", "<!-- <!DOCTYPE fake> -->", "\n\n",
+                         # text that LOOKS like a start tag before the DOCTYPE: the filter must still find the declaration
+                         "<!-- <b>markup</b> in a comment -->", "<?php echo '<rss>'; ?>", "<!-- <rss version=\"2.0\"> --><!-- <a -->", "<!-- %s -->" % ("x" * (70000 if rng.random() < 0.15 else 10))])
     xmldecl = rng.choice(['<?xml version="1.0"?>', '<?xml version="1.0" encoding="utf-8"?>', ""])
     joiner = rng.choice(["\n", "", " "])
     refs = "".join("[&%s;]" % nm for nm in names)
